@@ -617,6 +617,31 @@ func c10ProtoCode(c *Ctx) {
 		}
 		// the deferred closure reads the cell into SetProtoCode
 		okDefer := false
+		// ... or a deferred method that gets the cell by pointer: defer g.reportStep(sample, &code)
+		EachInstr(fn, func(di ssa.Instruction) {
+			d, ok := di.(*ssa.Defer)
+			if !ok || cell == nil {
+				return
+			}
+			df := d.Call.StaticCallee()
+			if df == nil || len(df.Blocks) == 0 {
+				return
+			}
+			EachInstr(df, func(in ssa.Instruction) {
+				if !IsCall(in, sSetProto) {
+					return
+				}
+				u, ok := Strip(CC(in).Args[1]).(*ssa.UnOp)
+				if !ok || u.Op != token.MUL {
+					return
+				}
+				for i, p := range df.Params {
+					if ssa.Value(p) == u.X && i < len(d.Call.Args) && d.Call.Args[i] == ssa.Value(cell) {
+						okDefer = true
+					}
+				}
+			})
+		})
 		for _, cl := range fn.AnonFuncs {
 			EachInstr(cl, func(in ssa.Instruction) {
 				if IsCall(in, sSetProto) {
